@@ -6,6 +6,8 @@
 -/
 import SnowProofs.Lemmas.GenReal
 import SnowModel.Gen.Evap
+import SnowModel.Gen.GenUtils
+import SnowModel.EvapFormulas
 import Mathlib.Analysis.Complex.ExponentialBounds
 
 namespace Snow.EvapLemmas
@@ -270,5 +272,44 @@ theorem liq_assemble_low {d A t1 t2 g1 g2 : ℝ} (hd : 0 < d) (ht0 : -1 ≤ t2) 
     nlinarith
   rw [hsplit]
   nlinarith
+
+/-! ### the Hertz–Knudsen flux with π as a PARAMETER (`Gen.FU.N_w`, formula-mode extraction)
+
+The run models evaluate the flux with their own value of `np.pi` (0D/1D: the rational `Evap.piDouble`,
+2D: the input `Par.pi`); the laws below hold for every positive value of that parameter. -/
+
+theorem fluxN_eq (π κ m kB pvac pvap Tl Tv : ℝ) :
+    Gen.FU.N_w (kappa := κ) (m_water := m) (np_pi := π) (k_B := kB) (p_vap := pvap) (T_l := Tl) (p_vac := pvac)
+        (T_v := Tv) =
+      (2 / (2 - κ)) * Real.sqrt (m * κ ^ 2 / (2 * π * kB)) * (pvap / Real.sqrt Tl - pvac / Real.sqrt Tv) := by
+  simp only [Gen.FU.N_w, sqrt_real, ofNat'_real]
+  norm_num [sq]
+
+/-- over ℝ the whole-function text `Gen.vapour_flux` is the formula-mode text at `np_pi = π` -/
+theorem flux_gen_eq (κ m kB pvac pvap Tl Tv : ℝ) :
+    Gen.vapour_flux κ m kB pvac pvap Tl Tv =
+      Gen.FU.N_w (kappa := κ) (m_water := m) (np_pi := Real.pi) (k_B := kB) (p_vap := pvap) (T_l := Tl)
+        (p_vac := pvac) (T_v := Tv) := by
+  rw [flux_eq, fluxN_eq]
+
+theorem piDouble_pos : (0 : ℝ) < (Evap.piDouble : ℝ) := by
+  simp only [Evap.piDouble, ofRat_real]
+  norm_num
+
+/-- the prefactor for a given value of π -/
+noncomputable def fluxCoefPi (π κ m kB : ℝ) : ℝ := (2 / (2 - κ)) * Real.sqrt (m * κ ^ 2 / (2 * π * kB))
+
+theorem fluxCoefPi_pos {π κ m kB : ℝ} (hπ : 0 < π) (hκ : 0 < κ) (hκ1 : κ ≤ 1) (hm : 0 < m) (hk : 0 < kB) :
+    0 < fluxCoefPi π κ m kB := by
+  unfold fluxCoefPi
+  have h2 : 0 < 2 - κ := by linarith
+  have : 0 < m * κ ^ 2 / (2 * π * kB) := by positivity
+  have hs := Real.sqrt_pos.mpr this
+  positivity
+
+theorem fluxN_same_T (π κ m kB pvac pvap T : ℝ) :
+    Gen.FU.N_w (kappa := κ) (m_water := m) (np_pi := π) (k_B := kB) (p_vap := pvap) (T_l := T) (p_vac := pvac)
+        (T_v := T) = fluxCoefPi π κ m kB * ((pvap - pvac) / Real.sqrt T) := by
+  rw [fluxN_eq]; unfold fluxCoefPi; ring
 
 end Snow.EvapLemmas
